@@ -7,3 +7,5 @@ import Proofs.C13
 import Proofs.C14
 import Proofs.C16
 import Proofs.C17
+import Proofs.C19
+import Proofs.C20
